@@ -209,6 +209,17 @@ def oracle_C03(inp):
     keys = list(x.fields.keys())
     vals = list(x.fields.values())
     segs = str(x).split("/")
+    # a caller may do what it likes with the dictionary `fields` hands out (build a variant, drop a level):
+    # navigation of the Sid itself is a function of the Sid
+    try:
+        f = x.fields
+        if len(f) > 1:
+            f.pop(list(f)[-1])
+        f[list(f)[0]] = "edited"
+    except BaseException as e:  # noqa
+        out.append("editing the dictionary returned by .fields raised %s" % type(e).__name__)
+    if list(x.fields.items()) != list(zip(keys, vals)):
+        out.append("%r: editing the dictionary returned by .fields changed the Sid: %r" % (s, list(x.fields.items())))
     for i, k in enumerate(keys):
         y = x.get_as(k)
         if not y:
@@ -1551,10 +1562,24 @@ def oracle_C17(inp):
 
     merged = dict(old or {})
     merged.update(new)
+    form = inp.get("form", "kw")
+
+    def do_write():
+        """ONE write of `new`, in the spelling under test: all of them are a single atomic update"""
+        w = WriteToPaths()
+        items = list(new.items())
+        if form == "attr+kw" and len(items) >= 1:
+            (k0, v0), rest = items[0], dict(items[1:])
+            return w.set(sid, k0, v0, **rest)
+        if form == "attr" and len(items) == 1:
+            return w.set(sid, attribute=items[0][0], value=items[0][1])
+        if form == "update":
+            return w.update(sid, dict(new))
+        return w.set(sid, **new)
     # 1. trace of an uninterrupted write, compared with the model's effect list
     setup()
     with _CrashHook(None, suffix) as h:
-        WriteToPaths().set(sid, **new)
+        do_write()
     total = h.count
     kinds = [t[0] for t in h.trace]
     data_path = str(conf.get_data_json_path(Sid(sid).path()))
@@ -1570,7 +1595,7 @@ def oracle_C17(inp):
         setup()
         try:
             with _CrashHook(k, suffix):
-                WriteToPaths().set(sid, **new)
+                do_write()
             crashed = False
         except _Crash:
             crashed = True
